@@ -83,7 +83,7 @@ def snapshot_defaults(defaults):
     return out
 
 
-def new_enforcer(box, variant, enforce_new, defaults=None, overwrite=True, warn=False, nreg=None, dup_dirs=False):
+def new_enforcer(box, variant, enforce_new, defaults=None, overwrite=True, warn=False, nreg=None, dup_dirs=False, absent_first=False):
     from oslo_config import cfg
     from oslo_policy import policy
     conf = cfg.ConfigOpts()
@@ -92,6 +92,8 @@ def new_enforcer(box, variant, enforce_new, defaults=None, overwrite=True, warn=
     dirs = box.dirs()
     if dup_dirs:
         dirs = [dirs[0], dirs[1], dirs[0], dirs[2]]
+    if absent_first:
+        dirs = [dirs[2], dirs[0], dirs[1]]
     conf.set_override('policy_dirs', dirs, group='oslo_policy')
     conf.set_override('enforce_new_defaults', bool(enforce_new), group='oslo_policy')
     e.suppress_deprecation_warnings = not warn
